@@ -206,7 +206,43 @@ def gen_targeted(rng, n):
                 else:
                     ops.append(msg(snd_una if rng.below(2) else last_sent)); ops.append("P")
                     ops.append("P")
-    return [" ".join(str(x) for x in c["cfg"]) + " " + " ".join(c["ops"]) for c in cases]
+    return [" ".join(str(x) for x in c["cfg"]) + " " + " ".join(c["ops"]) for c in cases] + \
+        gen_sacked_probe(rng.fork("sacked_probe"), max(6, n // 16))
+
+
+def gen_sacked_probe(rng, n):
+    """Open-loop: the newest segment is an MTU probe (first flight: one proven-size segment + the probe), the peer
+    acknowledges the PROBE selectively while the segment before it is lost, then the retransmission timer fires once or
+    twice (the probe's own retry budget is 0 or 1, so an unacknowledged probe would be given up here): only the hole may
+    be resent, the selectively acknowledged probe must neither be sent again nor be re-cut (seeded C06-b / C14-b)."""
+    out = []
+    for i in range(n):
+        isn = rng.choice([100, 65534, 65535, rng.below(65536)])
+        link = rng.choice([1500, 1500, 1280, 9000])
+        cfg = cfg_line(nagle=rng.choice([0, 1]), max_retx=5, isn=isn, link=link, probe_retx=rng.choice([0, 0, 1]),
+                       syn_rtt=rng.choice([1_000_000, 100_000_000]))
+        ts = [10]
+
+        def msg(ack, sack="-", wnd=1048576):
+            ts[0] += rng.range(1, 5000)
+            return f"M2,1,{ack % 65536},{wnd},{ts[0]},0,0,{sack}"
+        total = rng.choice([1519, 1519, 528 + 700, 528 + 900, 2000])
+        ops = [f"W{total},0", "P"]
+        # ack_nr = isn (nothing cumulatively acknowledged); SACK bit 0 names isn + 2 = the second segment (the probe)
+        wnd = rng.choice([1048576, 1048576, 600, 300])
+        ops += [msg(isn, sack="0100000000000000", wnd=wnd), "P"]
+        now = cfg[17]
+        for k in range(rng.choice([1, 2, 2, 3])):
+            now += rng.choice([250_000_000, 450_000_000, 1_000_000_000, 3_000_000_000])
+            ops += [f"T{now}", "P"]
+            if rng.below(3) == 0:
+                ops += [msg(isn, sack="0100000000000000", wnd=wnd), "P"]
+        if rng.below(2):
+            ops += [msg(isn + 2), "P"]
+        if rng.below(2):
+            ops += ["DR", "DW", "P"]
+        out.append(" ".join(str(x) for x in cfg) + " " + " ".join(ops))
+    return out
 
 
 def gen(rng, tier):
